@@ -4,8 +4,13 @@ suite still passes, and run the listed quick checks: exit 1 would be a false ala
 import glob, json, os, shutil, subprocess, sys
 VERIF = os.path.dirname(os.path.dirname(os.path.abspath(__file__)))
 out = {}
+only = sys.argv[1:]
+resf = os.path.join(VERIF, 'work', 'eqrun_results.json')
+out = json.load(open(resf)) if os.path.exists(resf) else {}
 for d in sorted(glob.glob(os.path.join(VERIF, 'seeded_equivalent', 'eq*.diff'))):
     name = os.path.basename(d)[:-5]
+    if only and name not in only:
+        continue
     meta = json.load(open(d[:-5] + '.json'))
     scratch = '/var/tmp/eqrun_%s' % name
     shutil.rmtree(scratch, ignore_errors=True)
@@ -19,9 +24,9 @@ for d in sorted(glob.glob(os.path.join(VERIF, 'seeded_equivalent', 'eq*.diff')))
     for p in meta['props']:
         env = dict(os.environ, VERIF_REPO=scratch, VERIF_EVIDENCE_DIR='/var/tmp/eqrun_evidence', VERIF_REPLAY_DIR='/var/tmp/eqrun_replays')
         r = subprocess.run([sys.executable, os.path.join(VERIF, 'tools', 'check.py'), p, '--tier', 'quick'], cwd=VERIF, capture_output=True, text=True, env=env)
-        res['checks'][p] = {'exit': r.returncode, 'lines': [l for l in r.stdout.split('\n') if l.startswith(('VIOLATION', 'UNDECIDED'))][:3]}
+        res['checks'][p] = {'exit': r.returncode, 'acceptable': r.returncode in meta.get('accept_exit', [0]), 'lines': [l for l in r.stdout.split('\n') if l.startswith(('VIOLATION', 'UNDECIDED'))][:3]}
         print(name, p, 'suite_ok=%s' % suite_ok, 'exit=%d' % r.returncode, res['checks'][p]['lines'], flush=True)
     out[name] = res
     shutil.rmtree(scratch, ignore_errors=True)
 shutil.rmtree('/var/tmp/eqrun_target', ignore_errors=True)
-json.dump(out, open(os.path.join(VERIF, 'work', 'eqrun_results.json'), 'w'), indent=1)
+json.dump(out, open(resf, 'w'), indent=1)
